@@ -731,6 +731,12 @@ def call_method(sx, obj, attr, args, kwargs, st, node):
     m = sx.reg.value_method(sx, obj, attr, args, kwargs, st, node)
     if m is not None:
         return m
+    if isinstance(t, (V.List, V.Set, V.Dict)) and attr in ("append", "extend", "insert", "pop", "remove", "clear", "sort", "reverse", "add", "update",
+                                                           "discard", "setdefault", "popitem", "appendleft") and not sx.spec_mode:
+        # an in-place mutation of a container VALUE (e.g. an element of event.tags): the function writes to an object it was
+        # handed and that no `modifies` clause names -- a frame violation
+        sx.oblige(st, "%s/frame:mutates-a-container-it-does-not-own@%s" % (sx.cur_func, getattr(node, "lineno", "?")), z3.BoolVal(False), "frame", node)
+        return ok(st, NONE)
     raise Unsupported("method %s on %r" % (attr, t), node)
 
 
@@ -1048,6 +1054,11 @@ def str_method(sx, obj, attr, args, kwargs, st, node):
         from .sx import Unknown
         sx.uncontracted.append("str.%s (line %s)" % (attr, getattr(node, "lineno", "?")))
         return [R(st, Conc(Unknown("str.%s()" % attr))), R(st.fork(), None, Exc("Exception", exact=False))]
+    if sx.unit is not None:
+        # (inside a comprehension element / condition of the real code, evaluated without effects): some value
+        t_u = V.Opaque("unknown")
+        sx.uncontracted.append("str.%s (line %s)" % (attr, getattr(node, "lineno", "?")))
+        return ok(st, Val(t_u, z3.Const(fresh_name("unknown"), t_u.sort())))
     raise Unsupported("str method %s" % attr, node)
 
 
